@@ -1047,6 +1047,37 @@ theorem C07_handshake_retry_stdio (F : Facts) (hF : F.stdioOnError = .resync) (H
     (stdioRun F H { stdioRun F H st bad with tbl := Table.init [n] } [.value (wfResult n (.obj o))]).tbl.got n = some (.ok (.obj o)) :=
   C07_later_call_stdio F H _ (C07_total_stdio F hF H bad st h) n o
 
+private theorem stdioStep_note (F : Facts) (hF : F.stdioOnError = .resync) (H : List Text) (m : Text) (hm : m ∈ H) (p : Obj)
+    (st : StdioSt) (h : st.halt = none) :
+    stdioStep F H st (.value (wfNote m p)) = { st with notes := st.notes ++ [(m, .obj p)] } := by
+  simp [stdioStep, h, hF, stdioLineStep, stdioValue, msgType, wfNote, lookupStr?, lookup, hasKey, notifDecodes, strOrNull, objOrNull,
+    methodOf, paramsOf, extractString, hm]
+
+/-- notification BURSTS, stdio (good region — today): any number of well-formed notifications of a method with a registered
+    handler, back to back — every one is handed to its handler, in order, the reader stays alive and the pending table is
+    untouched; so (`C07_later_call_stdio`) a call made afterwards on the same client — by the caller or by one of the
+    handlers — is answered.  (What a handler does while it runs is outside the model: today every handler has its own
+    goroutine; the differential run exercises handlers that call back into the client.) -/
+theorem C07_burst_stdio (F : Facts) (hF : F.stdioOnError = .resync) (H : List Text) (m : Text) (hm : m ∈ H) (ps : List Obj)
+    (st : StdioSt) (h : st.halt = none) :
+    (stdioRun F H st (ps.map (fun p => Frame.value (wfNote m p)))).halt = none ∧
+    (stdioRun F H st (ps.map (fun p => Frame.value (wfNote m p)))).notes = st.notes ++ ps.map (fun p => (m, Json.obj p)) ∧
+    (stdioRun F H st (ps.map (fun p => Frame.value (wfNote m p)))).tbl.pending = st.tbl.pending := by
+  induction ps generalizing st with
+  | nil => simp [stdioRun, h]
+  | cons p ps ih =>
+    simp only [List.map_cons, stdioRun, List.foldl_cons] at ih ⊢
+    rw [stdioStep_note F hF H m hm p st h]
+    have := ih { st with notes := st.notes ++ [(m, .obj p)] } h
+    simpa [List.append_assoc] using this
+
+/-- a burst of any length, then a call: answered -/
+theorem C07_call_after_burst_stdio (F : Facts) (hF : F.stdioOnError = .resync) (H : List Text) (m : Text) (hm : m ∈ H) (ps : List Obj)
+    (st : StdioSt) (h : st.halt = none) (n : Nat) (o : Obj) :
+    (stdioRun F H { stdioRun F H st (ps.map (fun p => Frame.value (wfNote m p))) with tbl := Table.init [n] }
+      [.value (wfResult n (.obj o))]).tbl.got n = some (.ok (.obj o)) :=
+  C07_later_call_stdio F H _ (C07_burst_stdio F hF H m hm ps st h).1 n o
+
 /-- Close ends the read loop whatever it is doing (the loop condition reads `closed`) -/
 theorem C07_close_ok_stdio (st : StdioSt) : (stdioClose st).spinning = false := by
   simp [stdioClose, StdioSt.spinning]
